@@ -192,13 +192,13 @@ N('nb_eip712_type_graphs_vs_reference', TD, 'TypedData (encode_type, struct_hash
   'native: 4368 member lists (1..=3 members over 16 kinds incl. struct refs, nested/fixed arrays, recursive P[]) x 5 helper-struct graphs (independent, chains, shared/repeated deps, mutual recursion) = 21840 documents with conforming values')
 N('nb_eip712_nonconforming_values_refused', TD, 'TypedData value conformance', {'C09': Q, 'C08': Q},
   'a document is refused exactly when the reference says a value is not a value of its declared type; accepted documents hash to the reference value',
-  'native: all 32 widths x 8 range boundaries x uintN/intN x number/decimal/hex/float spellings; bytesN N-1,N,N+1 for N=1..32; fixed arrays size-1,size,size+1 (size 0..3, also nested); 16 JSON kinds x 12 type kinds; missing/undeclared members; each offending value also nested inside a struct inside an array (3535 documents)')
+  'native: all 32 widths x 8 range boundaries x uintN/intN x number/decimal/hex/float spellings; bytesN N-1,N,N+1 for N=1..32; fixed arrays size-1,size,size+1 (size 0..3, also nested); 16 JSON kinds x 12 type kinds; missing/undeclared members (also for member-less structs); each offending value also nested inside a struct inside an array (about 3700 documents)')
 N('nb_domain_types_enumerated', TD, 'TypedDataBlob::verify_domain_type / compute', {'C20': Q},
   'exactly the 31 well-formed EIP712Domain types are accepted (and hash to the reference value); every other sequence, any type substitution, and a missing domain type are refused',
   'native: all 9331 member sequences of length 0..=5 over the five standard names + one foreign name; 14 type substitutions at every position of each of the 31 well-formed domains; missing EIP712Domain (10452 documents)')
 N('nb_member_kind_grammar', TD, 'MemberKind::{from_str, Display}', {'C08': Q, 'C17': Q},
   'member type strings parse to the kind the reference grammar assigns and print back unchanged; 64 array suffixes do not overflow the stack',
-  'native: 11 base words + 11 non-ASCII names (Unicode numerics, digits after multi-byte characters) + bytes0..40 + uint/int 0..300 with array-suffix combinations up to depth 3 over 4 sizes (55590 strings) + one depth-64 string')
+  'native: 11 base words + 11 non-ASCII names (Unicode numerics, digits after multi-byte characters) + bytes0..40 + uint/int 0..300 + 13 non-canonical spellings (uint08, uint+8 …) with array-suffix combinations up to depth 3 over 8 size spellings (about 600000 strings) + one depth-64 string')
 
 # ---------------------------------------------------------------------------
 # C04 — account
@@ -269,7 +269,7 @@ N('nb_hex_roundtrip_and_layouts', CMD, 'cmd::permissive_hex o hex::encode', {'C1
   'native: one byte string of every length 0..=4096 (all 256 byte values) and all 65536 two-byte strings', bin=True)
 N('nb_cli_account_commands', CLI, 'address / export / public-key commands', {'C16': Q},
   'address, export, public-key print the EIP-55 address, 0x-hex secret and uncompressed public key of the key the library derives for the selector; flags == environment; the two selectors conflict',
-  'native CLI: 2 mnemonics x 3 passphrases x 8 selectors x 3 commands x {flags, environment}; ganache account indices 0..=40 and 486 x 3 commands')
+  'native CLI: 2 mnemonics x 3 passphrases x 8 selectors x 3 commands x {flags, environment}; ganache account indices 0..=40 and 486 x 3 commands; 7 invalid paths (flag and environment) and 3 invalid indices x 3 commands')
 N('nb_cli_sign_hash_pairing', CLI, 'sign / hash commands', {'C16': Q, 'C15': Q, 'C11': Q},
   'every sign subcommand signs (low-s, recoverable to the selected key) exactly the digest the matching hash subcommand prints; hash --signature == keccak(sign output), with and without 0x; legacy without chain id refused in both output modes unless the override flag is given (then v in {27,28}); hash data / --message-hash',
   'native CLI: 3 account selectors x (3 messages, 3 transactions, typed data, raw) + guard cases')
